@@ -128,8 +128,60 @@ func c04R1(c *Ctx) {
 		return
 	}
 	// edges on which the region holds / does not hold a permit
+	// predicates on the state: module functions whose result is the state field or its negation (paths taken only
+	// for a nil receiver aside), e.g. `func (lr *LimitedRegion) active() bool { return lr == nil || !lr.ended }`
+	statePred := map[*ssa.Function]bool{} // fn -> result == state (true) / == !state (false)
+	for _, g := range c.P.FuncsOfPkg("internal/syncutil") {
+		if g == Start || g == End || g.Signature.Results().Len() != 1 || len(g.Params) == 0 {
+			continue
+		}
+		if b, ok := g.Signature.Results().At(0).Type().Underlying().(*types.Basic); !ok || b.Kind() != types.Bool {
+			continue
+		}
+		nilE, _, _ := NilTests(g, Aliases(g.Params[0]))
+		pol, known, okP := false, false, true
+		for _, a := range RetAtoms(g, 0) {
+			if len(nilE) > 0 && AtomMustPass(a, newCut().Edges(nilE...)) {
+				continue // nil receiver
+			}
+			v, neg := a.Val, false
+			for {
+				u, isNot := v.(*ssa.UnOp)
+				if !isNot || u.Op != token.NOT {
+					break
+				}
+				v, neg = u.X, !neg
+			}
+			if !c01IsFieldValue(v, state) {
+				okP = false
+				break
+			}
+			if known && pol != !neg {
+				okP = false
+				break
+			}
+			pol, known = !neg, true
+		}
+		if okP && known {
+			statePred[g] = pol
+		}
+	}
 	edges := func(fn *ssa.Function) (heldE, freeE []Edge) {
 		t, f := BoolTests(fn, c04FieldValues(fn, state))
+		for _, i := range Ifs(fn) {
+			cond, te, fe := ifEdges(i)
+			call, isCall := cond.(*ssa.Call)
+			if !isCall {
+				continue
+			}
+			if pol, isPred := statePred[StaticCallee(call)]; isPred && len(call.Call.Args) > 0 && c01ParamOf(call.Call.Args[0]) != nil {
+				if pol {
+					t, f = append(t, te), append(f, fe)
+				} else {
+					t, f = append(t, fe), append(f, te)
+				}
+			}
+		}
 		if held {
 			return t, f
 		}
@@ -369,13 +421,15 @@ func c04R3(c *Ctx) {
 			}
 		}
 		for _, s := range stores {
-			if k, ok := constInt(s.Val); ok && k >= 1 {
+			if c04CertainPositive(s.Val, 0) {
 				positive.Instr(s)
 			}
 		}
 		return positive
 	}
 	// a limiter helper: returns the semaphore it creates, sized by one of its parameters (newCopyLimiter(concurrency))
+	// hp >= 0: sized by parameter #hp; hp == -2: a helper sized by the Concurrency option it reaches itself
+	// (method on the options); hp == -1: not a limiter helper
 	helperParam := func(h *ssa.Function) (int, ssa.CallInstruction) {
 		if h.Parent() != nil || h.Signature.Results().Len() != 1 || !strings.HasSuffix(h.Signature.Results().At(0).Type().String(), "semaphore.Weighted") {
 			return -1, nil
@@ -384,9 +438,14 @@ func c04R3(c *Ctx) {
 		if len(sems) != 1 {
 			return -1, nil
 		}
+		if c01Slice(sems[0].Common().Args[0], func(x ssa.Value) bool { return c01IsFieldValue(x, conc) }) {
+			return -2, sems[0]
+		}
 		for i, prm := range h.Params {
-			if c01Slice(sems[0].Common().Args[0], func(x ssa.Value) bool { return x == ssa.Value(prm) }) {
-				return i, sems[0]
+			if b, isInt := prm.Type().Underlying().(*types.Basic); isInt && b.Info()&types.IsInteger != 0 {
+				if c01Slice(sems[0].Common().Args[0], func(x ssa.Value) bool { return x == ssa.Value(prm) }) {
+					return i, sems[0]
+				}
 			}
 		}
 		return -1, nil
@@ -401,7 +460,7 @@ func c04R3(c *Ctx) {
 	}
 	var points []creation
 	for _, F := range c.P.FuncsOfPkg("") {
-		if hp, _ := helperParam(F); hp >= 0 {
+		if hp, _ := helperParam(F); hp != -1 {
 			continue // its call sites are the creation points
 		}
 		for _, call := range CallsTo(F, nNewSem) {
@@ -411,6 +470,8 @@ func c04R3(c *Ctx) {
 			if h := StaticCallee(call); h != nil && inModule(h) && len(h.Blocks) > 0 {
 				if hp, inner := helperParam(h); hp >= 0 && hp < len(call.Common().Args) {
 					points = append(points, creation{F: F, call: call, size: call.Common().Args[hp], inner: inner, h: h, hp: hp})
+				} else if hp == -2 {
+					points = append(points, creation{F: F, call: call, size: inner.Common().Args[0], inner: inner, h: h, hp: hp})
 				}
 			}
 		}
@@ -457,7 +518,10 @@ func c04R3(c *Ctx) {
 				}
 			}
 		}
-		if !okPos && pt.h != nil {
+		if !okPos && pt.h != nil && pt.hp == -2 {
+			okPos = MustPass(pt.inner.(ssa.Instruction), positiveCut(pt.h, c04FieldValues(pt.h, conc), c04FieldStores(pt.h, conc)))
+		}
+		if !okPos && pt.h != nil && pt.hp >= 0 {
 			prm := pt.h.Params[pt.hp]
 			pc := positiveCut(pt.h, Aliases(prm), nil)
 			okPos = true
@@ -574,6 +638,77 @@ func c04R3(c *Ctx) {
 		}
 		c.Check(R, key, T.Pos(), ok && len(initial) > 0, ifelse(ok, "successors are dispatched with the limiter the enclosing copy call started the traversal with", why))
 	}
+}
+
+// c04CertainPositive: v is >= 1 whatever the inputs: a positive constant, or the
+// result of a module function (positiveOr(v, def)) each of whose results is a
+// positive constant, a parameter returned under a positive test of it, or a
+// parameter whose argument at this call is itself certainly positive.
+func c04CertainPositive(v ssa.Value, depth int) bool {
+	v = strip(v)
+	if k, ok := constInt(v); ok {
+		return k >= 1
+	}
+	call, ok := v.(*ssa.Call)
+	if !ok || depth > 2 {
+		return false
+	}
+	h := StaticCallee(call)
+	if h == nil || !inModule(h) || len(h.Blocks) == 0 || h.Signature.Results().Len() != 1 {
+		return false
+	}
+	atoms := RetAtoms(h, 0)
+	if len(atoms) == 0 {
+		return false
+	}
+	for _, a := range atoms {
+		av := strip(a.Val)
+		if k, isK := constInt(av); isK {
+			if k < 1 {
+				return false
+			}
+			continue
+		}
+		prm, isParam := av.(*ssa.Parameter)
+		if !isParam {
+			return false
+		}
+		idx := -1
+		for i, q := range h.Params {
+			if q == prm {
+				idx = i
+			}
+		}
+		if idx < 0 || idx >= len(call.Call.Args) {
+			return false
+		}
+		// returned under a positive test of the parameter?
+		pos := newCut()
+		for _, i := range Ifs(h) {
+			cond, t, f := ifEdges(i)
+			bo, isBo := cond.(*ssa.BinOp)
+			if !isBo || strip(bo.X) != ssa.Value(prm) {
+				continue
+			}
+			k, isK := constInt(bo.Y)
+			if !isK {
+				continue
+			}
+			switch {
+			case bo.Op == token.LEQ && k == 0, bo.Op == token.LSS && k == 1:
+				pos.Edges(f)
+			case bo.Op == token.GTR && k == 0, bo.Op == token.GEQ && k == 1:
+				pos.Edges(t)
+			}
+		}
+		if len(pos.edges) > 0 && AtomMustPass(a, pos) {
+			continue
+		}
+		if !c04CertainPositive(call.Call.Args[idx], depth+1) {
+			return false
+		}
+	}
+	return true
 }
 
 // ---------- R4 ----------
@@ -695,7 +830,19 @@ func c04R4(c *Ctx) {
 	// roles
 	var doCopy, copyNode, mountFn *ssa.Function
 	for _, f := range c.P.FuncsOfPkg("") {
-		if f.Parent() == nil && len(CallsTo(f, nFetch)) > 0 && len(CallsTo(f, nPush)) > 0 {
+		hasIn := func(name string) bool {
+			if len(CallsTo(f, name)) > 0 {
+				return true
+			}
+			for _, a := range Anons(f) {
+				if len(CallsTo(a, name)) > 0 {
+					return true
+				}
+			}
+			return false
+		}
+		// fetches and pushes itself, or in closures it hands to a transfer helper
+		if f.Parent() == nil && hasIn(nFetch) && hasIn(nPush) {
 			if doCopy != nil {
 				c.Undecided(R, "roles|transfer", f.Pos(), "more than one function fetches and pushes directly: "+FnName(doCopy)+", "+FnName(f))
 				return
@@ -724,6 +871,16 @@ func c04R4(c *Ctx) {
 	for _, f := range c.P.FuncsOfPkg("") {
 		if len(isCallTo(doCopy)(f)) > 0 && len(sitesOf(f, pre)) > 0 {
 			copyNode = f
+		}
+	}
+	// the mount attempt (invokes Mounter.Mount) may sit in a helper of the function that drives the attempts and
+	// announces OnMounted / PostCopy
+	attemptFn := mountFn
+	if mountFn != nil && len(sitesOf(mountFn, mountedF)) == 0 {
+		for _, f := range c.P.FuncsOfPkg("") {
+			if f != mountFn && len(isCallTo(mountFn)(f)) > 0 && len(sitesOf(f, mountedF)) > 0 {
+				mountFn = f
+			}
 		}
 	}
 	inlined := false
@@ -812,11 +969,67 @@ func c04R4(c *Ctx) {
 		F := doCopy
 		fn := FnName(F)
 		fs, ps := CallsTo(F, nFetch), CallsTo(F, nPush)
-		x, _ := c04AnyReach(append(c04Instrs(fs), c04Instrs(ps)...), append(c04Instrs(fs), c04Instrs(ps[:0])...))
-		ok := len(fs) == 1 && len(ps) == 1 && x == nil && !Reachable(ps[0].(ssa.Instruction), ps[0].(ssa.Instruction)) &&
-			MustPass(ps[0].(ssa.Instruction), newCut().Calls(fs))
+		if len(fs) == 0 || len(ps) == 0 {
+			// Fetch / Push sit in closures handed to a module helper: transfer(fetch, push, …).  The sequencing is the
+			// helper's: it calls its fetch parameter, then its push parameter, and closes the reader.
+			closureWith := func(name string) *ssa.Function {
+				var out *ssa.Function
+				n := 0
+				for _, a := range Anons(doCopy) {
+					if k := len(CallsTo(a, name)); k == 1 {
+						out = a
+						n++
+					} else if k > 1 {
+						n += 2
+					}
+				}
+				if n != 1 {
+					return nil
+				}
+				return out
+			}
+			cf, cp := closureWith(nFetch), closureWith(nPush)
+			fs, ps = nil, nil
+			for _, call := range Calls(doCopy, func(string) bool { return true }) {
+				h := StaticCallee(call)
+				if h == nil || !inModule(h) || len(h.Blocks) == 0 || cf == nil || cp == nil {
+					continue
+				}
+				fi, pi := -1, -1
+				for i, a := range call.Common().Args {
+					if g, _ := c01FuncOfValue(a); g != nil {
+						if g == cf {
+							fi = i
+						}
+						if g == cp {
+							pi = i
+						}
+					}
+				}
+				if fi < 0 || pi < 0 || Reachable(call.(ssa.Instruction), call.(ssa.Instruction)) {
+					continue
+				}
+				F = h
+				for _, hc := range Calls(h, func(string) bool { return true }) {
+					if hc.Common().IsInvoke() {
+						continue
+					}
+					if hc.Common().Value == ssa.Value(h.Params[fi]) {
+						fs = append(fs, hc)
+					}
+					if hc.Common().Value == ssa.Value(h.Params[pi]) {
+						ps = append(ps, hc)
+					}
+				}
+			}
+		}
+		ok := len(fs) == 1 && len(ps) == 1
+		if ok {
+			x, _ := c04AnyReach(append(c04Instrs(fs), c04Instrs(ps)...), c04Instrs(fs))
+			ok = x == nil && !Reachable(ps[0].(ssa.Instruction), ps[0].(ssa.Instruction)) && MustPass(ps[0].(ssa.Instruction), newCut().Calls(fs))
+		}
 		c.Check(R, fn+"|one-fetch-then-one-push", F.Pos(), ok,
-			ifelse(ok, "one Fetch, then one Push, neither repeated", "the transfer fetches or pushes more than once per node (or pushes without fetching)"))
+			ifelse(ok, "one Fetch, then one Push, neither repeated", "the transfer fetches or pushes more than once per node (or pushes without fetching), or Fetch/Push are reached in a way that is not recognised"))
 		okClose := false
 		if len(fs) == 1 {
 			rc := ResultOf(fs[0], 0)
@@ -847,19 +1060,60 @@ func c04R4(c *Ctx) {
 	// --- traversal: one terminal action per node ---
 	for _, tr := range c01Traversals(c.P) {
 		T := tr.Body
-		var acts []ssa.Instruction
-		acts = append(acts, c04Instrs(sitesOf(T, skippedF))...)
-		acts = append(acts, c04Instrs(isCallTo(copyNode)(T))...)
-		acts = append(acts, c04Instrs(isCallTo(mountFn)(T))...)
-		a, b := c04AnyReach(acts, acts)
+		// terminal actions of f: the callback / node copy / mount-or-copy sites, and calls of module helpers that
+		// perform one (their inner sites must exclude each other as well)
+		var a, b ssa.Instruction
+		nLeaf := 0
+		var actions func(f *ssa.Function, depth int, seen map[*ssa.Function]bool) []ssa.Instruction
+		actions = func(f *ssa.Function, depth int, seen map[*ssa.Function]bool) []ssa.Instruction {
+			var out []ssa.Instruction
+			out = append(out, c04Instrs(sitesOf(f, skippedF))...)
+			out = append(out, c04Instrs(isCallTo(copyNode)(f))...)
+			out = append(out, c04Instrs(isCallTo(mountFn)(f))...)
+			if depth < 2 {
+				for _, call := range Calls(f, func(string) bool { return true }) {
+					if _, isDefer := call.(*ssa.Defer); isDefer {
+						continue
+					}
+					h := StaticCallee(call)
+					if h == nil && !call.Common().IsInvoke() {
+						h, _ = c01FuncOfValue(call.Common().Value)
+					}
+					if h == nil || !inModule(h) || len(h.Blocks) == 0 || h == copyNode || h == mountFn || h == doCopy || seen[h] || h == tr.Entry {
+						continue
+					}
+					if fnPkgPath(h) != Mod {
+						continue
+					}
+					seen[h] = true
+					if inner := actions(h, depth+1, seen); len(inner) > 0 {
+						out = append(out, call.(ssa.Instruction))
+					}
+				}
+			}
+			if x, y := c04AnyReach(out, out); x != nil && a == nil {
+				a, b = x, y
+			}
+			if len(out) > nLeaf {
+				nLeaf = len(out)
+			}
+			return out
+		}
+		acts := actions(tr.Entry, 0, map[*ssa.Function]bool{})
+		if nLeaf > len(acts) {
+			acts = make([]ssa.Instruction, nLeaf) // the alternatives live in a function the entry calls
+		}
 		c.Check(R, c01ClosureKey(T, "traverse")+"|one-terminal-action-per-node", T.Pos(), a == nil && len(acts) >= 2,
 			ifelse(a == nil, fmt.Sprintf("OnCopySkipped / node copy / mount-or-copy exclude each other and none repeats (%d sites)", len(acts)), fmt.Sprintf("%s can be followed by %s for the same node", instrLabelOr(a), instrLabelOr(b))))
 	}
 	// --- mount-or-copy ---
 	{
-		F := mountFn
+		F, A := mountFn, attemptFn
 		fn := FnName(F)
-		mounts := CallsTo(F, nMount)
+		mounts := CallsTo(F, nMount) // the attempts as seen in the driver
+		if A != F {
+			mounts = isCallTo(A)(F)
+		}
 		mounteds, posts, fallbacks := sitesOf(F, mountedF), sitesOf(F, post), isCallTo(copyNode)(F)
 		a, _ := c04AnyReach(c04Instrs(mounteds), c04Instrs(posts))
 		if a == nil {
@@ -889,7 +1143,7 @@ func c04R4(c *Ctx) {
 		// the loop continues only when the mount fell back (flag set by the content getter)
 		ok = loop != nil
 		if ok {
-			for _, m := range mounts {
+			for _, m := range CallsTo(A, nMount) {
 				args := m.Common().Args
 				G, recv := c01FuncOfValue(args[len(args)-1])
 				if G == nil || len(G.Blocks) == 0 {
@@ -957,7 +1211,7 @@ func c04R4(c *Ctx) {
 						flagFound, fellBack = true, boolConst(k)
 						// in F: the same field of the bound receiver
 						nStores := 0
-						AllInstrs(F, func(in2 ssa.Instruction) {
+						AllInstrs(A, func(in2 ssa.Instruction) {
 							switch x := in2.(type) {
 							case *ssa.Store:
 								if fa, isFA := x.Addr.(*ssa.FieldAddr); isFA && fa.X == recv && fa.Field == addr.Field {
@@ -976,7 +1230,7 @@ func c04R4(c *Ctx) {
 							ok = false // zero value false == K
 						}
 						// a fresh state per attempt
-						if a, isAlloc := recv.(*ssa.Alloc); !isAlloc || !Dominates(a, m.(ssa.Instruction)) || !loop.Contains(a) {
+						if a, isAlloc := recv.(*ssa.Alloc); !isAlloc || !Dominates(a, m.(ssa.Instruction)) || (A == F && !loop.Contains(a)) {
 							ok = false
 						}
 					}
@@ -985,34 +1239,95 @@ func c04R4(c *Ctx) {
 					ok = false
 					continue
 				}
-				te, fe := BoolTests(F, loads)
-				if !fellBack {
-					te, fe = fe, te
+				var te, fe []Edge // edges of the driver on which the attempt fell back / did not
+				if A == F {
+					te, fe = BoolTests(F, loads)
+					if !fellBack {
+						te, fe = fe, te
+					}
+				} else {
+					// the attempt helper reports the flag (or its negation) as a bool result
+					ridx, neg, okRes := -1, false, true
+					for j := 0; j < A.Signature.Results().Len(); j++ {
+						if b, isB := A.Signature.Results().At(j).Type().Underlying().(*types.Basic); !isB || b.Kind() != types.Bool {
+							continue
+						}
+						for _, ret := range Returns(A) {
+							if c01IsErrorReturn(ret, ErrResultIndex(A.Signature)) {
+								continue
+							}
+							v, n := ret.Results[j], false
+							for {
+								u, isNot := v.(*ssa.UnOp)
+								if !isNot || u.Op != token.NOT {
+									break
+								}
+								v, n = u.X, !n
+							}
+							if !loads[v] {
+								okRes = false
+								continue
+							}
+							ridx, neg = j, n
+						}
+					}
+					if ridx < 0 || !okRes {
+						ok = false
+						continue
+					}
+					for _, ac := range mounts {
+						if v := ResultOf(ac, ridx); v != nil {
+							t, f := BoolTests(F, Aliases(v))
+							// result true <=> flag == !neg ; fell back <=> flag == fellBack
+							if (!neg) == fellBack {
+								te, fe = append(te, t...), append(fe, f...)
+							} else {
+								te, fe = append(te, f...), append(fe, t...)
+							}
+						}
+					}
 				}
-				if reach(m.Block(), instrIndex(m.(ssa.Instruction))+1, loop.Header.Instrs[0], newCut().Edges(te...)) {
-					ok = false
+				for _, ac := range mounts {
+					if reach(ac.Block(), instrIndex(ac.(ssa.Instruction))+1, loop.Header.Instrs[0], newCut().Edges(te...)) {
+						ok = false
+					}
 				}
 				for _, md := range mounteds {
 					if !MustPass(md.(ssa.Instruction), newCut().Edges(fe...)) {
 						ok = false
 					}
 				}
-				// the getter announces PreCopy before it fetches
-				pres := sitesOf(G, pre)
-				preNil := c04NilEdgesOfField(G, pre)
-				okPre := len(pres) > 0
-				for _, f := range CallsTo(G, nFetch) {
-					if !MustPass(f.(ssa.Instruction), newCut().Calls(pres).Edges(preNil...)) {
-						okPre = false
+				// the fallback fetcher announces PreCopy before it fetches: the getter itself, or the closure of the
+				// driver it delegates to
+				fetchers := []*ssa.Function{G}
+				if len(CallsTo(G, nFetch)) == 0 {
+					fetchers = nil
+					for _, cand := range append(Anons(F), Anons(A)...) {
+						if len(CallsTo(cand, nFetch)) > 0 && types.Identical(cand.Signature, G.Signature) {
+							fetchers = append(fetchers, cand)
+						}
 					}
 				}
-				c.Check(R, fn+"$content-getter|PreCopy-before-fetch", G.Pos(), okPre,
-					ifelse(okPre, "the fallback fetch is preceded by PreCopy unless it is nil", "the mount fallback fetches the content without PreCopy"))
-				for _, p := range pres {
-					if e := ErrOf(p); e != nil {
-						okE, d := c04Unchanged(p, nil)
-						c.Check(R, fn+"$content-getter|PreCopy-error-unchanged", p.Pos(), okE, d)
+				for _, FG := range fetchers {
+					pres := sitesOf(FG, pre)
+					preNil := c04NilEdgesOfField(FG, pre)
+					okPre := len(pres) > 0
+					for _, f := range CallsTo(FG, nFetch) {
+						if !MustPass(f.(ssa.Instruction), newCut().Calls(pres).Edges(preNil...)) {
+							okPre = false
+						}
 					}
+					c.Check(R, fn+"$content-getter|PreCopy-before-fetch", FG.Pos(), okPre,
+						ifelse(okPre, "the fallback fetch is preceded by PreCopy unless it is nil", "the mount fallback fetches the content without PreCopy"))
+					for _, p := range pres {
+						if e := ErrOf(p); e != nil {
+							okE, d := c04Unchanged(p, nil)
+							c.Check(R, fn+"$content-getter|PreCopy-error-unchanged", p.Pos(), okE, d)
+						}
+					}
+				}
+				if len(fetchers) == 0 {
+					c.Violation(R, fn+"$content-getter|PreCopy-before-fetch", G.Pos(), "no fallback fetcher (closure fetching the content for the mounter) found")
 				}
 			}
 		}
